@@ -120,9 +120,9 @@ def warm_run(steps, envs, *, fuel, shims, faults=True, late_observe=True):
             shim.install()
             by_id = {s["id"]: s for s in steps}
             shim.cones = {s["id"]: frozenset(sx.cone_of(by_id, s["id"]))
-                          for s in steps if s["op"] in ("parse", "and", "or", "reparse")}
+                          for s in steps if s["op"] in ("parse", "and", "or", "reparse", "echo")}
         recs = sx.run_steps(steps, envs, faults=faults, fuel=fuel, shim=shim, late_observe=late_observe)
-        out = {"records": recs, "clock": sx.CLOCK.now}
+        out = {"records": recs, "clock": sx.CLOCK.now, "entered": sx.entered_summary()}
         if shim is not None:
             out["shim"] = shim.summary()
         else:
@@ -190,7 +190,7 @@ def classify(warm_rec, cold):
 
 
 def evaluate_program(steps, envs, *, fuel=DEFAULT_FUEL, shims=False, faults=True, only=None,
-                     cold_cache=None):
+                     cold_cache=None, skip_trivial=False):
     """Warm run + one cold run per completed producing step (or only ``only``).
 
     Returns dict(warm=…, probes=[{id, verdict, …}], divergences=[…], harness=[…]).
@@ -198,17 +198,33 @@ def evaluate_program(steps, envs, *, fuel=DEFAULT_FUEL, shims=False, faults=True
     warm = warm_run(steps, envs, fuel=fuel, shims=shims, faults=faults)
     if "__harness__" in warm:
         return {"warm": warm, "probes": [], "divergences": [], "harness": [("warm", warm["__harness__"], warm.get("trace"))]}
+    steps = sx.concretise(steps, warm["records"])
     by_id = {s["id"]: s for s in steps}
     probes = []
     divergences = []
     harness = []
     cold_cache = cold_cache if cold_cache is not None else {}
+    disturbed = False  # an abort, failure or fuel exhaustion happened so far: warm prefix != fault-free prefix
+    prefix = set()
     for rec in warm["records"]:
         sid = rec["id"]
+        prefix.add(sid)
+        was_disturbed = disturbed
+        if rec["status"] in ("aborted", "raised", "fuel") or rec.get("attempts", 1) > 1 or (rec.get("fault") or {}).get("fired"):
+            disturbed = True
         if only is not None and sid not in only:
             continue
         if rec["status"] not in ("ok", "raised", "fuel"):
             continue
+        if skip_trivial and not was_disturbed and rec["status"] == "ok" and rec.get("attempts", 1) == 1 \
+                and not (rec.get("fault") or {}).get("fired"):
+            # every step executed so far is in this probe's cone and nothing was aborted: the warm
+            # child has executed exactly the cold program, so the comparison could only test the
+            # determinism of the harness (the self-test does that). No fork.
+            producing = {r["id"] for r in warm["records"] if r["id"] in prefix and r["status"] != "noop"}
+            if producing <= set(sx.cone_of(by_id, sid)):
+                probes.append({"id": sid, "verdict": "trivial"})
+                continue
         if rec["status"] == "fuel":
             probes.append({"id": sid, "verdict": "inconclusive", "why": "fuel"})
             continue
@@ -238,7 +254,7 @@ def evaluate_program(steps, envs, *, fuel=DEFAULT_FUEL, shims=False, faults=True
             p["cold_digest"] = sx.obs_digest(cold["record"].get("obs", {"exc": cold["record"].get("exc", cold["record"]["status"])}))
             p["cold_clock"] = cold["clock"]
         probes.append(p)
-    return {"warm": warm, "probes": probes, "divergences": divergences, "harness": harness}
+    return {"warm": warm, "probes": probes, "divergences": divergences, "harness": harness, "steps": steps}
 
 
 def event_log_digest(steps, result):
@@ -253,5 +269,6 @@ def event_log_digest(steps, result):
         h.update(json.dumps(p, sort_keys=True).encode())
     if "shim" in warm:
         h.update(json.dumps(warm["shim"], sort_keys=True).encode())
+    h.update(json.dumps(warm.get("entered", {}), sort_keys=True).encode())
     h.update(str(warm.get("clock")).encode())
     return h.hexdigest()
